@@ -397,6 +397,8 @@ def seqskip_rule(repo, res, rule="SEQSKIP"):
 
 
 def run(repo, res, tier):
+    from . import c08
+    c08.guard_rules(repo, res)  # order of definitions: each rejection is decided by a predicate that does not depend on which definition comes first (e.g. duplicates among plain definitions only)
     seqskip_rule(repo, res)
     blanks_rule(repo, res)
     from . import common, c02
